@@ -202,8 +202,20 @@ func c10EvalSplits(b []byte, mode int, mask int) string {
 	}
 	st := Strip(got)
 	e := Esc(b)
-	if !bytes.Equal(st, e) && !(invalidTail(b) && bytes.Equal(st, append(append([]byte(nil), e...), '?'))) {
-		return fmt.Sprintf("mode %d payload %q: stripped %q, want %q", mode, b, st, e)
+	eq := append(append([]byte(nil), e...), '?')
+	switch {
+	case truncatedTail(b): // the statement demands the guard
+		if !bytes.Equal(st, eq) {
+			return fmt.Sprintf("mode %d payload %q: stripped %q, want %q (a truncated multi-byte tail needs the guard)", mode, b, st, eq)
+		}
+	case invalidTail(b): // ill-formed but not a truncated sequence: the statement does not decide
+		if !bytes.Equal(st, e) && !bytes.Equal(st, eq) {
+			return fmt.Sprintf("mode %d payload %q: stripped %q, want %q or %q", mode, b, st, e, eq)
+		}
+	default:
+		if !bytes.Equal(st, e) {
+			return fmt.Sprintf("mode %d payload %q: stripped %q, want %q", mode, b, st, e)
+		}
 	}
 	return ""
 }
@@ -292,6 +304,17 @@ func checkC10(c *Ctx) {
 				}
 				if d := c10EvalPublic(buf); d != "" {
 					w.Fail("public", c10case{B: append([]byte(nil), buf...), Q: q(string(buf))}, d)
+				}
+				// the same tail written to a ManualBuffer (the buffer decides by itself when to run the escaper)
+				for mode := 0; mode <= 1; mode++ {
+					if d := c10EvalSplits(buf, mode, 0); d != "" {
+						w.Fail("splits", c10case{B: append([]byte(nil), buf...), Q: q(string(buf)), Mode: mode, Mask: 0}, d)
+					}
+					if len(buf) > 1 {
+						if d := c10EvalSplits(buf, mode, 1<<(len(buf)-2)); d != "" {
+							w.Fail("splits", c10case{B: append([]byte(nil), buf...), Q: q(string(buf)), Mode: mode, Mask: 1 << (len(buf) - 2)}, d)
+						}
+					}
 				}
 			}
 		}
